@@ -674,6 +674,17 @@ func Leaves(full bool) []*Spec {
 		return one(k, jsonx.A(TimeNode(time.Unix(1, 5).UTC(), r)))
 	}))
 	add(fixed("uint64s", func(k string) zapcore.Field { return zap.Uint64s(k, []uint64{math.MaxUint64}) }, jsonx.A(U64(math.MaxUint64))))
+	// every other integer / float / complex slice constructor with its extreme values (each goes through its own Append* shim)
+	add(fixed("uints", func(k string) zapcore.Field { return zap.Uints(k, []uint{math.MaxUint, 0, 1 << 63}) }, jsonx.A(U64(math.MaxUint64), U64(0), U64(1<<63))))
+	add(fixed("uint32s", func(k string) zapcore.Field { return zap.Uint32s(k, []uint32{math.MaxUint32, 0}) }, jsonx.A(U64(math.MaxUint32), U64(0))))
+	add(fixed("uint16s", func(k string) zapcore.Field { return zap.Uint16s(k, []uint16{math.MaxUint16, 0}) }, jsonx.A(U64(math.MaxUint16), U64(0))))
+	add(fixed("uintptrs", func(k string) zapcore.Field { return zap.Uintptrs(k, []uintptr{^uintptr(0), 0}) }, jsonx.A(U64(math.MaxUint64), U64(0))))
+	add(fixed("ints(int)", func(k string) zapcore.Field { return zap.Ints(k, []int{math.MinInt, math.MaxInt, -1}) }, jsonx.A(I64(math.MinInt64), I64(math.MaxInt64), I64(-1))))
+	add(fixed("int32s", func(k string) zapcore.Field { return zap.Int32s(k, []int32{math.MinInt32, math.MaxInt32}) }, jsonx.A(I64(math.MinInt32), I64(math.MaxInt32))))
+	add(fixed("int16s", func(k string) zapcore.Field { return zap.Int16s(k, []int16{math.MinInt16, math.MaxInt16}) }, jsonx.A(I64(math.MinInt16), I64(math.MaxInt16))))
+	add(fixed("int8s", func(k string) zapcore.Field { return zap.Int8s(k, []int8{math.MinInt8, math.MaxInt8}) }, jsonx.A(I64(math.MinInt8), I64(math.MaxInt8))))
+	add(fixed("float32s", func(k string) zapcore.Field { return zap.Float32s(k, []float32{0.1, math.MaxFloat32, float32(math.Inf(-1))}) }, jsonx.A(F32(0.1), F32(math.MaxFloat32), jsonx.S("-Inf"))))
+	add(fixed("complex64s", func(k string) zapcore.Field { return zap.Complex64s(k, []complex64{complex(0.1, -2), complex(3, 0)}) }, jsonx.A(jsonx.S(cplx(float64(float32(0.1)), -2, 32)), jsonx.S(cplx(3, 0, 32)))))
 	add(fixed("complex128s", func(k string) zapcore.Field { return zap.Complex128s(k, []complex128{complex(1, -1)}) }, jsonx.A(jsonx.S("1-1i"))))
 	add(fixed("stringers", func(k string) zapcore.Field { return zap.Stringers(k, []okStringer{{"a"}, {"\n"}}) }, jsonx.A(jsonx.S("a"), jsonx.S("\n"))))
 	// failing elements inside zap.Stringers: the statement promises containment
